@@ -184,6 +184,21 @@ static void replace_case(const vrt::Box<ST::string> &st, const S &s, const S &fr
     if (o1 != o2)
         vrt::violation("C09:replace:nondeterministic-outcome", what);
     judge("str,str", o1, result_invalid, got);
+    if (to == from) {
+        // the same object as pattern and as replacement (case-insensitively this still rewrites differently-cased occurrences),
+        // and the subject itself in either role
+        Outcome o = call_str("replace", what + " form=same object twice", [&] { return st->replace(*sfrom, *sfrom, cs); }, got);
+        judge("same-object-twice", o, result_invalid, got);
+        vrt::count("replace.same_object_twice");
+    }
+    if (from == s) {
+        Outcome o = call_str("replace", what + " form=subject as pattern", [&] { return st->replace(*st, *sto, cs); }, got);
+        judge("subject-as-pattern", o, result_invalid, got);
+    }
+    if (to == s) {
+        Outcome o = call_str("replace", what + " form=subject as replacement", [&] { return st->replace(*sfrom, *st, cs); }, got);
+        judge("subject-as-replacement", o, result_invalid, got);
+    }
     const bool from_c = from.find('\0') == S::npos, to_c = to.find('\0') == S::npos;
     vrt::Exact<char> cf(from.data(), from.size(), true), ct(to.data(), to.size(), true);
     // const char* forms validate their arguments (default mode: check_validity)
@@ -252,6 +267,7 @@ static void body()
     vrt::require("split.form.cstr", 100);
     vrt::require("split.huge_max", 100);
     vrt::require("replace.cases", 1000);
+    vrt::require("replace.same_object_twice", 200);
     vrt::require("replace.multiple_matches", 100);
     vrt::require("replace.grows", 100);
     vrt::require("replace.shrinks", 100);
